@@ -217,4 +217,31 @@ Section Lookup.
     - intros key H. rewrite Q, (lidx_absent key labs H). reflexivity.
   Qed.
 
+  (* level_drop(1) of an index with ONE outermost group is correct: the promoted level is well formed
+     (so, by leaf_loc_spec, an exact bijection for the labels without their first component).  With two
+     or more groups the offsets are not re-based: Refuted/C02_level_drop_offsets.v *)
+  Theorem level_drop1_single_group d o k (t : level) : lwf d t ->
+    match t with LNode _ _ [] => False | _ => True end ->
+    exists t', M_level_drop1 ceqb (LNode o [k] [t]) = Ok t' /\ lwf d t' /\ flatten t' = flatten t /\
+               (forall key pos, leaf_loc ceqb key t' pos =
+                  match lidx key (flatten t) with Some i => Ok (pos + i) | None => Err "KeyError"%string end).
+  Proof.
+    intros W NE. destruct d as [|d]; [contradiction|].
+    assert (R : forall t', lwf (S d) t' -> flatten t' = flatten t ->
+              forall key pos, leaf_loc ceqb key t' pos =
+                match lidx key (flatten t) with Some i => Ok (pos + i) | None => Err "KeyError"%string end).
+    { intros t' W' F key pos. rewrite (leaf_loc_spec (S d) t' W' key pos), F. reflexivity. }
+    destruct t as [o' ls|o' ls tg]; cbn [lwf] in W.
+    - destruct W as [-> ND]. unfold M_level_drop1. cbn [flat_map lv_labels lv_targets app]. rewrite app_nil_r.
+      rewrite (proj2 (nodupb_NoDup C ceqb ceqb_spec ls) ND).
+      exists (LLeaf 0 ls). split; [reflexivity|]. assert (W' : lwf 1 (LLeaf 0 ls)) by (cbn; auto).
+      split; [exact W'|]. split; [reflexivity|]. apply R; [exact W' | reflexivity].
+    - destruct W as (Hd & ND & L & F & O). unfold M_level_drop1. cbn [flat_map lv_labels lv_targets app]. rewrite !app_nil_r.
+      rewrite (proj2 (nodupb_NoDup C ceqb ceqb_spec ls) ND).
+      destruct tg as [|t0 tg]; [contradiction|].
+      exists (LNode 0 ls (t0 :: tg)). split; [reflexivity|].
+      assert (W' : lwf (S d) (LNode 0 ls (t0 :: tg))) by (cbn [lwf]; auto).
+      split; [exact W'|]. split; [reflexivity|]. apply R; [exact W' | reflexivity].
+  Qed.
+
 End Lookup.
